@@ -444,7 +444,15 @@ class Check:
                         choices=["quick", "thorough"])
         ap.add_argument("--replay", default=None)
         ap.add_argument("--keep", action="store_true")
+        # aggregated checks (C03, C11): run this check's body on behalf of
+        # another property and hand the issues/coverage to the parent
+        ap.add_argument("--as", dest="as_prop", default=None)
+        ap.add_argument("--partial", default=None)
         a = ap.parse_args(argv)
+        self.own_prop = prop_id
+        self.partial = a.partial
+        if a.as_prop:
+            prop_id = a.as_prop
         self.prop = prop_id
         self.level = level
         self.tier = a.tier
@@ -452,7 +460,8 @@ class Check:
         self.keep = a.keep
         self.seed = int(os.environ.get("VERIF_SEED", "20261004"))
         self.t0 = time.time()
-        self.work = os.path.join(VERIF, ".work", "%s-%d" % (prop_id, os.getpid()))
+        self.work = os.path.join(VERIF, ".work", "%s-%s-%d" % (
+            prop_id, self.own_prop, os.getpid()))
         shutil.rmtree(self.work, ignore_errors=True)
         os.makedirs(self.work)
         self.issues = []
@@ -495,6 +504,26 @@ class Check:
 
     # -- finishing -----------------------------------------------------------
     def finish(self):
+        if self.partial:
+            # child of an aggregated check: no verdict here
+            for it in self.issues:
+                if it.replay is None:
+                    it.replay = self.save_replay(
+                        "violation-%s.json" % hashlib.sha1(
+                            it.signature.encode()).hexdigest()[:10],
+                        {"property": self.prop, "signature": it.signature,
+                         "what": it.what, "detail": it.detail})
+            with open(self.partial, "w") as fp:
+                json.dump({"from": self.own_prop, "cov": self.cov,
+                           "parts": self.parts,
+                           "machinery_errors": self.machinery_errors,
+                           "issues": [{"props": sorted(i.props),
+                                       "signature": i.signature, "what": i.what,
+                                       "replay": i.replay} for i in self.issues]},
+                          fp)
+            if not self.keep:
+                shutil.rmtree(self.work, ignore_errors=True)
+            return 2 if self.machinery_errors else 0
         known = load_known()
         listed = {(f["property"], f["signature"]): f for f in known.get("findings", [])}
         seen_known = {}
